@@ -118,7 +118,7 @@ class Universe:
                 n = r.choice([1, 1, 2, 3])
                 f["#" + name] = [r.choice(TAG_VALUES) for _ in range(n)]
             elif c == "since":
-                f["since"] = r.choice(TS_GRID) + r.choice([-1, 0, 0, 1])
+                f["since"] = r.choice(TS_GRID) + r.choice([-1, 0, 0, 1]) if r.random() > 0.08 else 0
             elif c == "until":
                 f["until"] = r.choice(TS_GRID) + r.choice([-1, 0, 0, 1])
         if limit is not None:
